@@ -259,11 +259,6 @@ def apply(u, T):
         return u
     if k == "case":
         return t_case(u, T[1], T[2])
-    if k == "norm" and T[1] == "default-port":
-        return same_but(a, b, "port") and a["port"] is None and b["port"] in (80, 443) and bool(a["host"])
-    if k == "norm":
-        lab = {"amp-label": "amp"}.get(T[1], T[1])
-        return same_but(a, b, "host") and bool(a["host"]) and b["host"] == lab + "." + a["host"]
     if k == "port":
         return t_port(u, T[1])
     if k == "label":
